@@ -38,6 +38,7 @@ type TokenSpec struct {
 	RootKeyID *uint32
 	Seal      bool
 	Base      []string // WithSymbols: a caller-supplied base table shared out of band
+	ViaNew    bool     // authority through NewBlockBuilder + biscuit.New instead of the Builder
 }
 
 func symTable(base []string) *datalog.SymbolTable {
@@ -128,12 +129,34 @@ func buildTokenSpec(spec TokenSpec, rng *Rng) (*biscuit.Biscuit, error) {
 	if len(blocks) == 0 {
 		blocks = []Block{{}}
 	}
-	if err := fillBuilder(b, blocks[0]); err != nil {
-		return nil, err
-	}
-	tok, err := b.Build()
-	if err != nil {
-		return nil, err
+	var tok *biscuit.Biscuit
+	var err error
+	if spec.ViaNew && spec.RootKeyID == nil {
+		// the lower-level route: a block builder over the caller's base table, then New
+		syms := symTable(spec.Base)
+		bb := biscuit.NewBlockBuilder(syms)
+		if err := fillBlockBuilder(bb, blocks[0]); err != nil {
+			return nil, err
+		}
+		authority := bb.Build()
+		if syms.Len() != len(spec.Base) {
+			return nil, fmt.Errorf("verif: NewBlockBuilder+Build left %d symbols in the caller's base table of %d", syms.Len(), len(spec.Base))
+		}
+		tok, err = biscuit.New(rd, priv, syms, authority)
+		if err != nil {
+			return nil, err
+		}
+		if syms.Len() != len(spec.Base) {
+			return nil, fmt.Errorf("verif: biscuit.New changed the caller's base table")
+		}
+	} else {
+		if err := fillBuilder(b, blocks[0]); err != nil {
+			return nil, err
+		}
+		tok, err = b.Build()
+		if err != nil {
+			return nil, err
+		}
 	}
 	for _, blk := range blocks[1:] {
 		bb := tok.CreateBlock()
@@ -543,7 +566,7 @@ func (g *scenGen) richBlock() Block {
 }
 
 func runC07(c *Ctx) {
-	c.Rule = "tokens built through the library from generated content (every term type, nested expressions over all operators, sets, default symbols, fresh symbols, symbols shared across blocks, 0-40 fresh symbols per block, contexts, 0-3 later blocks, sealed or not, root key ids absent/0/1/7/2^31/2^32-1) are serialized; the Lean wire model decodes the bytes with the published schema and symbol rules and must find block for block the supplied content, version 3, the root key id, the revocation ids; re-encoding the decoded content must reproduce the block bytes and the envelope bytes. Witness search on the library: Unmarshal (package-level, with the caller's base table, and through one Unmarshaler value reused for all tokens) then String / RevocationIds / RootKeyID / Serialize / an Authorize panel must equal the original's; re-signed blocks with versions 0,1,2,4,2^32-1 must be rejected. Non-trivial = at least two blocks or at least one expression; distinct = distinct serialized content encodings."
+	c.Rule = "tokens built through the library (Builder, or NewBlockBuilder + New over the caller's base table) from generated content (every term type, nested expressions over all operators, sets, default symbols, fresh symbols, symbols shared across blocks, 0-40 fresh symbols per block, contexts, 0-3 later blocks, sealed or not, root key ids absent/0/1/7/2^31/2^32-1) are serialized; the Lean wire model decodes the bytes with the published schema and symbol rules and must find block for block the supplied content, version 3, the root key id, the revocation ids; re-encoding the decoded content must reproduce the block bytes and the envelope bytes. Witness search on the library: Unmarshal (package-level, with the caller's base table, and through one Unmarshaler value reused for all tokens) then String / RevocationIds / RootKeyID / Serialize / an Authorize panel must equal the original's; re-signed blocks with versions 0,1,2,4,2^32-1 must be rejected. Non-trivial = at least two blocks or at least one expression; distinct = distinct serialized content encodings."
 	r := NewRng(c.Seed)
 	n := 1500
 	if c.Thorough {
@@ -556,7 +579,7 @@ func runC07(c *Ctx) {
 	sharedU := &biscuit.Unmarshaler{Symbols: sharedTable}
 	for i := 0; i < n; i++ {
 		g := newScenGen(r, 2)
-		spec := TokenSpec{RootKeyID: Pick(r, ids), Seal: r.Chance(1, 4)}
+		spec := TokenSpec{RootKeyID: Pick(r, ids), Seal: r.Chance(1, 4), ViaNew: r.Chance(1, 4)}
 		nb := 1 + r.Intn(4)
 		for j := 0; j < nb; j++ {
 			spec.Blocks = append(spec.Blocks, g.richBlock())
@@ -579,9 +602,16 @@ func runC07(c *Ctx) {
 		}
 		tok, err := buildTokenSpec(spec, r.Fork())
 		if err != nil {
+			if strings.HasPrefix(err.Error(), "verif:") {
+				c.Violate("C07/base-table-mutated", err.Error(), map[string]interface{}{"blocks": blocksExpectSx(spec.Blocks)})
+				continue
+			}
 			// builders may refuse content (e.g. empty set): not a wire case
 			c.Count("builder-refused")
 			continue
+		}
+		if spec.ViaNew && spec.RootKeyID == nil {
+			c.Count("via-new")
 		}
 		data, err := tok.Serialize()
 		if err != nil {
